@@ -206,4 +206,189 @@ theorem emit_decl_ok (t : Target) (names : List Named) (p : Program) : All (Decl
     obtain ⟨d, _, rfl⟩ := List.mem_map.mp hx
     exact defToks_ok _ _ _ _
 
+/-! ### a file-scope declaration of a struct / enum / global / function sits in the namespace the registries record -/
+
+/-- the registries hold an entry for the symbol with this scope -/
+def HasEntry (t : Target) (p : Program) (s : Sym) (ns : Option Nat) : Prop :=
+  ∃ e ∈ (namesInput t p).entries, e.sym = s ∧ e.scope = ns
+
+def FileOk (t : Target) (p : Program) : Tok → Prop
+  | .decl (.file ns) k _ (.sym s) => k = "N" ∨ HasEntry t p s ns
+  | _ => True
+
+theorem fileOk_of_not_file {t : Target} {p : Program} {sc : Scope} {k n : String} {e : Ent}
+    (h : ∀ ns, sc ≠ .file ns) : FileOk t p (.decl sc k n e) := by
+  unfold FileOk
+  split
+  · rename_i heq
+    injection heq with h1 _ _ _
+    exact absurd h1 (h _)
+  · trivial
+
+theorem memberDecls_all {P : Tok → Prop} (sc : Scope) (k : String) (mk : Nat → Ent)
+    (h : ∀ m i, P (.decl sc k m (mk i))) : ∀ (ms : List String) (i : Nat), All P (memberDecls sc k mk ms i) := by
+  intro ms
+  induction ms with
+  | nil => intro i; exact all_nil
+  | cons m r ih => intro i; exact all_cons (h _ _) (ih _)
+
+theorem typeToks_file (t : Target) (names : List Named) (sc : Scope) (p : Program) (g : Nat) :
+    All (FileOk t p) (typeToks sc names p g) := by
+  unfold typeToks
+  split
+  · exact all_cons trivial all_nil
+  · split
+    · exact all_cons trivial all_nil
+    · exact all_nil
+
+theorem memberTok_file (t : Target) (sc : Scope) (p : Program) (g : Nat) : All (FileOk t p) (memberTok sc p g) := by
+  unfold memberTok
+  split
+  · split
+    · split
+      · split
+        · exact all_cons trivial all_nil
+        · exact all_nil
+      · exact all_nil
+    · exact all_nil
+  · exact all_nil
+
+theorem useToks_file (t : Target) (names : List Named) (sc : Scope) (p : Program) (r : Ref) :
+    All (FileOk t p) (useToks t sc names p r) := by
+  cases r <;> simp only [useToks]
+  case glob k =>
+    split
+    · exact all_append (all_append (all_ite (typeToks_file _ _ _ _ _) all_nil) (all_cons trivial all_nil)) (memberTok_file _ _ _ _)
+    · exact all_append (all_cons trivial all_nil) (memberTok_file _ _ _ _)
+  case func k =>
+    split
+    · exact all_nil
+    · exact all_append (all_cons trivial all_nil) (all_ite (all_map fun _ _ => trivial) all_nil)
+  case loc k => exact all_cons trivial all_nil
+  case enumVal v => exact all_cons trivial all_nil
+  case cbMember c i =>
+    split
+    · exact all_cons trivial (all_cons trivial all_nil)
+    · exact all_cons trivial all_nil
+  case structTy k => exact all_cons trivial all_nil
+  case enumTy k => exact all_cons trivial all_nil
+  case nothing => exact all_nil
+
+theorem bodyToks_file (t : Target) (names : List Named) (f : Nat) (p : Program) (body : List BTok) :
+    All (FileOk t p) (bodyToks t (.func f) names p body) := by
+  unfold bodyToks
+  refine all_flatMap fun b _ => ?_
+  cases b with
+  | lv k => exact all_cons (fileOk_of_not_file (fun _ => by simp)) all_nil
+  | op => exact all_cons trivial all_nil
+  | cl => exact all_cons trivial all_nil
+  | use r => exact useToks_file _ _ _ _ _
+
+theorem mem_entries {t : Target} {p : Program} {e : Entry}
+    (h : e ∈ structEntries p ∨ e ∈ enumEntries p ∨ e ∈ globalEntries p ∨ e ∈ funcEntries p) :
+    e ∈ (namesInput t p).entries := by
+  simp only [namesInput, List.mem_append]
+  rcases h with h | h | h | h
+  · exact Or.inl (Or.inl (Or.inl (Or.inl (Or.inl h))))
+  · exact Or.inl (Or.inl (Or.inl (Or.inr h)))
+  · exact Or.inl (Or.inl (Or.inr h))
+  · exact Or.inr h
+
+theorem defToks_file (t : Target) (names : List Named) (p : Program) (d : Def) (hd : d ∈ p.defs) :
+    All (FileOk t p) (defToks t names p d) := by
+  obtain ⟨ns, kind⟩ := d
+  unfold defToks
+  cases kind with
+  | struct o n ms fs =>
+    simp only
+    refine all_append (all_append (all_append (all_cons (Or.inr ?_) (all_cons trivial all_nil))
+      (memberDecls_all _ _ _ (fun _ _ => fileOk_of_not_file (fun _ => by simp)) _ _))
+      (all_flatMap fun f _ => all_cons (fileOk_of_not_file (fun _ => by simp)) (all_cons trivial (all_cons trivial all_nil))))
+      (all_cons trivial all_nil)
+    exact ⟨⟨⟨.struct, o⟩, ns, n⟩, mem_entries (Or.inl (List.mem_filterMap.mpr ⟨_, hd, rfl⟩)), rfl, rfl⟩
+  | enum o n vs =>
+    simp only
+    refine all_append (all_append (all_cons (Or.inr ?_) (all_cons trivial all_nil))
+      (all_map fun _ _ => fileOk_of_not_file (fun _ => by simp))) (all_cons trivial all_nil)
+    refine ⟨⟨⟨.enum, o⟩, ns, n⟩, mem_entries (Or.inr (Or.inl ?_)), rfl, rfl⟩
+    exact List.mem_flatMap.mpr ⟨_, hd, List.mem_cons_self ..⟩
+  | glob o n s =>
+    simp only
+    refine all_ite all_nil (all_cons (Or.inr ?_) all_nil)
+    exact ⟨⟨⟨.global, o⟩, ns, n⟩, mem_entries (Or.inr (Or.inr (Or.inl (List.mem_filterMap.mpr ⟨_, hd, rfl⟩)))), rfl, rfl⟩
+  | res o n kind opts =>
+    simp only
+    have he : HasEntry t p ⟨.global, o⟩ ns :=
+      ⟨⟨⟨.global, o⟩, ns, n⟩, mem_entries (Or.inr (Or.inr (Or.inl (List.mem_filterMap.mpr ⟨_, hd, rfl⟩)))), rfl, rfl⟩
+    refine all_ite (all_ite (all_cons (Or.inr he) all_nil) all_nil) ?_
+    exact all_append (all_append (typeToks_file _ _ _ _ _) (all_cons (Or.inr he) all_nil))
+      (all_ite (all_cons trivial (all_cons trivial all_nil)) all_nil)
+  | cbuf c n g ms =>
+    simp only
+    split
+    · rename_i hm
+      refine all_append (all_append (all_cons (Or.inr ?_) (all_cons trivial all_nil))
+        (memberDecls_all _ _ _ (fun _ _ => fileOk_of_not_file (fun _ => by simp)) _ _)) (all_cons trivial all_nil)
+      refine ⟨⟨⟨.struct, cbStruct p c⟩, ns, n ++ "Type"⟩, ?_, rfl, rfl⟩
+      simp only [namesInput, hm, if_true, List.mem_append]
+      refine Or.inl (Or.inl (Or.inl (Or.inl (Or.inr ?_))))
+      exact List.mem_map.mpr ⟨(c, ns, n), List.mem_filterMap.mpr ⟨_, hd, rfl⟩, rfl⟩
+    · exact all_append (all_append (all_cons trivial (all_cons trivial all_nil))
+        (memberDecls_all _ _ _ (fun _ _ => trivial) _ _)) (all_cons trivial all_nil)
+  | func o n ps body entry =>
+    simp only
+    refine all_append (all_append (all_append (all_append (all_cons (Or.inr ?_) (all_cons trivial all_nil))
+      (all_map fun _ _ => fileOk_of_not_file (fun _ => by simp)))
+      (all_ite (all_flatMap fun g _ => all_append (typeToks_file _ _ _ _ _)
+        (all_cons (fileOk_of_not_file (fun _ => by simp)) all_nil)) all_nil))
+      (bodyToks_file _ _ _ _ _)) (all_cons trivial all_nil)
+    refine ⟨⟨⟨.func, o⟩, ns, n⟩, mem_entries (Or.inr (Or.inr (Or.inr ?_))), rfl, rfl⟩
+    exact List.mem_flatMap.mpr ⟨_, hd, List.mem_cons_self ..⟩
+
+theorem inlinePrelude_file (t : Target) (names : List Named) (p : Program) : All (FileOk t p) (inlinePrelude names p) := by
+  unfold inlinePrelude
+  refine all_flatMap fun s _ => ?_
+  exact all_append (all_append (all_cons trivial (all_cons trivial all_nil))
+    (all_map fun _ _ => fileOk_of_not_file (fun _ => by simp)))
+    (all_cons trivial (all_cons trivial (all_cons trivial all_nil)))
+
+theorem mslEpilogue_file (t : Target) (names : List Named) (p : Program) : All (FileOk t p) (mslEpilogue names p) := by
+  unfold mslEpilogue
+  split
+  · refine all_append (all_append (all_append (all_append (all_append ?_ (all_cons trivial (all_cons trivial all_nil))) ?_) ?_) ?_)
+      (all_cons trivial all_nil)
+    · unfold argBufferToks
+      refine all_flatMap fun i _ => ?_
+      exact all_append (all_append (all_cons trivial (all_cons trivial all_nil))
+        (all_flatMap fun g _ => all_append (typeToks_file _ _ _ _ _)
+          (all_cons (fileOk_of_not_file (fun _ => by simp)) all_nil))) (all_cons trivial all_nil)
+    · unfold wrapperParams
+      refine all_append ?_ (all_flatMap fun i _ => all_cons trivial (all_cons trivial all_nil))
+      split
+      · exact all_cons (fileOk_of_not_file (fun _ => by simp)) all_nil
+      · exact all_nil
+    · unfold wrapperLocals
+      exact all_flatMap fun g _ => all_ite all_nil (all_cons (fileOk_of_not_file (fun _ => by simp)) all_nil)
+    · unfold wrapperCall
+      refine all_append (all_append (all_cons trivial all_nil) ?_) ?_
+      · split
+        · exact all_cons trivial all_nil
+        · exact all_nil
+      · exact all_flatMap fun g _ => all_ite (all_cons trivial (all_cons trivial all_nil)) (all_cons trivial all_nil)
+  · exact all_nil
+
+theorem emit_file_ok (t : Target) (names : List Named) (p : Program) : All (FileOk t p) (emit t names p) := by
+  unfold emit
+  refine all_append (all_append (all_ite (inlinePrelude_file _ _ _) all_nil) ?_) (all_ite (mslEpilogue_file _ _ _) all_nil)
+  refine wrap_all names p trivial trivial (fun sc _ e => ?_) _ _ ?_
+  · unfold FileOk
+    split
+    · rename_i heq
+      injection heq with _ h2 _ _
+      exact Or.inl h2.symm
+    · trivial
+  · intro x hx
+    obtain ⟨d, hd, rfl⟩ := List.mem_map.mp hx
+    exact defToks_file _ _ _ _ hd
+
 end RsslVerif.Lemmas.NamesEmit
